@@ -32,7 +32,7 @@
       EIDs are numbers, 0 = dtn:none;  wall clock frozen ([a_now]), [a_tsn] = calls made to the agent's
       [Timestamper] so far (with a frozen clock the k-th call returns sequence number k-1). *)
 From Coq Require Import NArith List Bool.
-From DTN Require Import Gen.ReportTable.
+From DTN Require Import Gen.ReportTable Gen.RecvTail.
 Import ListNotations.
 Local Open Scope N_scope.
 
@@ -83,7 +83,8 @@ Record bundle := mkBundle {
   b_sec : option N;
   b_prep : N;                   (* 0 none, 1 previous-node insertion raises, 2 bundle-age insertion raises *)
   b_size : N;
-  b_fragfeas : bool
+  b_fragfeas : bool;
+  b_refuse : bool               (* the application the bundle is delivered to records 'delete' (admin element: ACME record it rejects) *)
 }.
 
 Definition is_frag (b : bundle) : bool := match b_frag b with Some _ => true | None => false end.
@@ -141,7 +142,7 @@ Definition tick (a : agent) : agent :=
 
 Definition set_ts (b : bundle) (t q : N) : bundle :=
   mkBundle (b_src b) (b_dst b) (b_rpt b) t q (b_frag b) (b_flags b) (b_paylen b) (b_crc_ok b) (b_sec b)
-           (b_prep b) (b_size b) (b_fragfeas b).
+           (b_prep b) (b_size b) (b_fragfeas b) (b_refuse b).
 
 (** The status report of RFC 9171 6.1.1 as built by [create_report] and completed by [_apply_primary]. *)
 Record report := mkReport {
@@ -231,7 +232,7 @@ Definition frag_total (b : bundle) : N := match b_frag b with Some (_, t) => t |
 (** The bundle synthesised from the first fragment when reassembly completes. *)
 Definition reassembled (f : bundle) (total : N) : bundle :=
   mkBundle (b_src f) (b_dst f) (b_rpt f) (b_time f) (b_seq f) None (b_flags f) total true (b_sec f)
-           (b_prep f) (b_size f) (b_fragfeas f).
+           (b_prep f) (b_size f) (b_fragfeas f) (b_refuse f).
 
 Definition ra_inject (r : reasm) (b : bundle) : reasm :=
   mkReasm (ra_src r) (ra_time r) (ra_seq r) (ra_total r)
@@ -354,12 +355,12 @@ Section WithMatch.
   Definition final (a : agent) (b : bundle) (acts : list action) (reason : option N) (captured : bool)
     : agent * list event :=
     let ev0 := if captured then [EvDeliver b] else [] in
-    if mem ADel acts then
-      let '(a1, ev) := finish a b b acts reason in (a1, ev0 ++ ev)
+    let '(ad, evd) := if mem ADel acts then finish a b b acts reason else (a, []) in
+    if mem ADel acts && tail_delete_returns then (ad, ev0 ++ evd)
     else
-      let '(a1, ev1) := if mem ADlv acts then finish a b b acts reason else (a, []) in
+      let '(a1, ev1) := if mem ADlv acts then finish ad b b acts reason else (ad, []) in
       let '(a2, ev2) := if mem AFwd acts then do_fwd a1 b acts reason else (a1, []) in
-      (a2, ev0 ++ ev1 ++ ev2).
+      (a2, ev0 ++ evd ++ ev1 ++ ev2).
 
   (** RX steps 19/20 (BPSec): a verification failure replaces 'deliver' by 'delete' with the reason. *)
   Definition sec_step (b : bundle) (acts0 : list action) : list action * option N :=
@@ -367,6 +368,12 @@ Section WithMatch.
     | Some rc => if mem ADlv acts0 then (add ADel (remove ADlv acts0), Some rc) else (acts0, None)
     | None => (acts0, None)
     end.
+
+  (** RX step 30, administrative handling: the admin element takes a non-fragment bundle addressed to the node
+      id that carries 'deliver'; an ACME record it rejects makes it record 'delete' (no reason) - AFTER the
+      delivery callback. *)
+  Definition app_step (a : agent) (b : bundle) (acts : list action) : list action :=
+    if b_refuse b && mem ADlv acts && (b_dst b =? a_node a) && negb (is_frag b) then add ADel acts else acts.
 
   (** Is this bundle processed at all ([recv_bundle] past its three gates)? *)
   Definition accepted (a : agent) (b : bundle) : bool :=
@@ -390,7 +397,7 @@ Section WithMatch.
         end
       else
         (* steps 19/20, BPSec verification: only for bundles to be delivered *)
-        let '(a2, ev) := final a0 b (fst (sec_step b acts0)) (snd (sec_step b acts0))
+        let '(a2, ev) := final a0 b (app_step a0 b (fst (sec_step b acts0))) (snd (sec_step b acts0))
                                (mem ADlv (fst (sec_step b acts0))) in (a2, ev, None).
 
   (** One bundle from the CL, with everything it triggers on the idle queue: a list of
